@@ -97,7 +97,7 @@ var propC04 = &modelProp{
 	profile: func() *Profile {
 		return &Profile{
 			Property: "C04", MaxOps: pick(12, 30),
-			W:          map[string]int{"insert": 8, "update": 5, "delete": 3, "resurrect": 1, "many": 2, "bulk": 1, "query": 3, "searchDelete": 1, "reopen": 6, "abandonReopen": 3, "deleteAll": 1, "upsertUUID": 1},
+			W:          map[string]int{"insert": 8, "update": 5, "delete": 3, "resurrect": 1, "many": 2, "bulk": 1, "query": 3, "searchDelete": 1, "reopen": 6, "abandonReopen": 3, "deleteAll": 1, "upsertUUID": 1, "createAgain": 2},
 			AllowCache: true, AllowCompress: true, AllowAsync: true, AllowLower: true,
 			MinIndexed: 1, MaxIndexed: 5, MaxUnique: 2, CasePaths: 1,
 			TinyBias: 25, BigBias: 45, HookBias: 5, RichShape: 25, MaxLeaves: 2,
